@@ -10,6 +10,7 @@ import (
 	"path/filepath"
 	"strconv"
 	"strings"
+	"sync"
 	"time"
 )
 
@@ -483,11 +484,15 @@ func checkC02(c *Ctx) {
 			os.RemoveAll(dir)
 		}
 	})
+	var selMulti int64 // replayed configurations with >= 1 selector and >= 2 JSON values in the run
 	runA := func(r c02Run) {
 		opt := TLCOpt{Module: "MC_Driver", Cfg: r.cfg(), Workers: 16, Heap: "6g",
 			OnVec: func(raw []byte) {
 				var cfg c02Cfg
 				VecDecode(raw, &cfg)
+				if nv := c02NValues(&cfg); cfg.NSel > 0 && nv >= 2 {
+					selMulti++
+				}
 				m := c02Render(&cfg, c02Seed(c.Seed, raw), c02Name)
 				tag := c02Tag{Fam: r.fam, Cfg: &cfg, Exp: c02Expect(&cfg, m)}
 				tb, _ := json.Marshal(&tag)
@@ -507,7 +512,7 @@ func checkC02(c *Ctx) {
 	bounds := map[string]any{}
 	all := "{1, 2, 3, 4, 5, 6}"
 	if !c.Thorough() {
-		big := []string{"{1}", "{3}", "{6}"}[int(c.Seed%3)]
+		big := []string{"{3}", "{5}"}[int(c.Seed%2)] // the two smaller fixed inputs with selectors; all six at <= 3 in the thorough tier
 		runs = []c02Run{
 			{fam: "rules", alpha: "full", maxRules: 2, sel: all, nsel: "{0}"},
 			{fam: "rules", alpha: "full", maxRules: 3, sel: big, nsel: "{0}"},
@@ -532,6 +537,21 @@ func checkC02(c *Ctx) {
 		bounds["sim"] = "8 x 4000 random behaviours: rules <= 6, files <= 3, values <= 3, array length <= 3, nsel <= 2"
 	}
 	parts := os.Getenv("C02_PARTS") // development switch: "A" or "B" alone; default both
+	def := &c02Deferred{}
+	c.specDir() // before the two bindings start TLC concurrently
+
+	// ---- binding B (single TLC worker) runs alongside binding A
+	var wgB sync.WaitGroup
+	var panicB any
+	traceBounds := map[string]any{}
+	if parts == "" || strings.Contains(parts, "B") {
+		wgB.Add(1)
+		go func() {
+			defer wgB.Done()
+			defer func() { panicB = recover() }()
+			c02Traces(c, pool, def, traceBounds)
+		}()
+	}
 	if parts == "" || strings.Contains(parts, "A") {
 		for _, r := range runs {
 			runA(r)
@@ -539,10 +559,23 @@ func checkC02(c *Ctx) {
 		st.Wait()
 	}
 	os.RemoveAll(binDir)
-
-	// ---- binding B
-	if parts == "" || strings.Contains(parts, "B") {
-		c02Traces(c, pool, bounds)
+	wgB.Wait()
+	if panicB != nil {
+		if inf, ok := panicB.(Infra); ok && c02NViolations(c) > 0 {
+			def.add("%s", inf.msg)
+		} else {
+			panic(panicB)
+		}
+	}
+	for k, v := range traceBounds {
+		bounds[k] = v
+	}
+	c.Set("selector_configs_with_several_values", selMulti)
+	if len(def.msgs) > 0 {
+		if c02NViolations(c) == 0 {
+			infra("%s", strings.Join(def.msgs, "\n"))
+		}
+		c.Set("infrastructure_notes", def.msgs)
 	}
 
 	// the core counts every case as a validated trace; here only the runs Trace_Driver accepted are traces
@@ -558,6 +591,14 @@ func checkC02(c *Ctx) {
 		"non-trivial when the expected stdout is non-empty; distinct by (program, selectors, input bytes). "+
 		"B: one case per recorded run accepted by Trace_Driver; non-trivial when it has at least one hook event")
 	c.Set("checker_cmd", "tlc MC_Driver (BFS families rules / inputs, -simulate family sim) -> lang.EvalProgram stdout; tlc Trace_Driver -workers 1 (DFS queue) on recorded hook events")
+}
+
+func c02NValues(cfg *c02Cfg) int {
+	n := 0
+	for _, f := range cfg.Files {
+		n += len(f)
+	}
+	return n
 }
 
 func c02FilesRep(fs []FileIn) []map[string]string {
@@ -741,7 +782,28 @@ func c02NDJSON(runs [][]c02Ev) string {
 	return sb.String()
 }
 
+// c02Deferred collects infrastructure problems met while violations may still
+// be found or are already known: a violation is never hidden by exit 2.  They
+// become an infrastructure failure at the end only if no violation was found.
+type c02Deferred struct {
+	mu   sync.Mutex
+	msgs []string
+}
+
+func (d *c02Deferred) add(format string, a ...any) {
+	d.mu.Lock()
+	defer d.mu.Unlock()
+	d.msgs = append(d.msgs, fmt.Sprintf(format, a...))
+}
+
+func c02NViolations(c *Ctx) int {
+	c.mu.Lock()
+	defer c.mu.Unlock()
+	return len(c.violations)
+}
+
 type c02Verdict struct {
+	broken   bool // TLC failed other than by rejecting the trace
 	ok       bool
 	accepted int // number of leading runs accepted
 	maxLine  int
@@ -749,7 +811,7 @@ type c02Verdict struct {
 }
 
 // c02Validate runs Trace_Driver over the concatenated runs.
-func c02Validate(c *Ctx, runs [][]c02Ev) c02Verdict {
+func c02Validate(c *Ctx, def *c02Deferred, runs [][]c02Ev) c02Verdict {
 	v := c02Verdict{}
 	lines := []string{"SPECIFICATION Spec", "CONSTANT ObsKeep = 2"}
 	for _, inv := range []string{"TypeOK", "Ordered", "BeginFirst", "EndLast", "EndDollarNull", "Bindings",
@@ -788,13 +850,14 @@ func c02Validate(c *Ctx, runs [][]c02Ev) c02Verdict {
 			}
 		}
 		if !post || len(res.Errors) == 0 {
-			infra("Trace_Driver failed other than by rejecting the trace:\n%s", strings.Join(res.Errors, "\n"))
+			def.add("Trace_Driver failed other than by rejecting the trace:\n%s", strings.Join(res.Errors, "\n"))
+			v.broken = true
 		}
 	}
 	return v
 }
 
-func c02Traces(c *Ctx, pool *Pool, bounds map[string]any) {
+func c02Traces(c *Ctx, pool *Pool, def *c02Deferred, bounds map[string]any) {
 	nRuns, batch := 1200, 1200
 	if c.Thorough() {
 		nRuns, batch = 5000, 1000
@@ -845,12 +908,20 @@ func c02Traces(c *Ctx, pool *Pool, bounds map[string]any) {
 		}
 		// validate; on rejection isolate the offending run, re-record it, and go on with the rest
 		rest := good
-		for round := 0; len(rest) > 0 && round < 6; round++ {
+		for round := 0; len(rest) > 0; round++ {
+			if round >= 8 {
+				c.Count("traces_not_validated_after_8_rejections", int64(len(rest)))
+				break
+			}
 			trs := make([][]c02Ev, len(rest))
 			for i, it := range rest {
 				trs[i] = it.tr
 			}
-			v := c02Validate(c, trs)
+			v := c02Validate(c, def, trs)
+			if v.broken {
+				c.Count("traces_not_validated_tlc_failure", int64(len(rest)))
+				break
+			}
 			acc := v.accepted
 			if v.ok {
 				acc = len(rest)
@@ -870,9 +941,12 @@ func c02Traces(c *Ctx, pool *Pool, bounds map[string]any) {
 			// reproduce in isolation
 			r2 := pool.Do(&bad.job)
 			tr2 := c02TraceOf(bad.cfg, bad.m, &r2)
-			v2 := c02Validate(c, [][]c02Ev{tr2})
-			if v2.ok {
-				infra("C02: a rejected trace was accepted when re-recorded in isolation (program %q)", bad.m.Prog)
+			v2 := c02Validate(c, def, [][]c02Ev{tr2})
+			if v2.ok || v2.broken {
+				// not reproducible: never a violation
+				def.add("C02: a rejected trace was not rejected again when re-recorded in isolation (program %q)", bad.m.Prog)
+				rest = rest[acc+1:]
+				continue
 			}
 			c.Violation("trace-rejected", map[string]any{"program": bad.m.Prog, "selectors": bad.m.Sels, "files": c02FilesRep(bad.m.Files),
 				"config": bad.cfg, "trace": tr2, "longest_matched_prefix_lines": v2.maxLine, "stdout": string(r2.Stdout)})
@@ -881,9 +955,15 @@ func c02Traces(c *Ctx, pool *Pool, bounds map[string]any) {
 	}
 	c.Sample(map[string]any{"family": "trace", "trace_head": selfTestHead(selfTest)})
 
-	// the validation must bite: corrupted traces have to be rejected
+	// the validation must bite: corrupted copies of ACCEPTED traces have to be rejected.
+	// With too few accepted traces because real violations were found the self-test is skipped.
 	if len(selfTest) < 3 {
-		infra("C02: not enough traces for the corrupted-trace self-test")
+		if c02NViolations(c) > 0 {
+			c.Set("corrupted_trace_selftest", fmt.Sprintf("skipped: only %d accepted traces of suitable length, violations were found", len(selfTest)))
+		} else {
+			def.add("C02: not enough accepted traces (%d) for the corrupted-trace self-test", len(selfTest))
+		}
+		return
 	}
 	corrupt := 0
 	for kind := 0; kind < 3; kind++ {
@@ -901,14 +981,18 @@ func c02Traces(c *Ctx, pool *Pool, bounds map[string]any) {
 		if victim < 0 {
 			continue
 		}
-		v := c02Validate(c, runs)
+		v := c02Validate(c, def, runs)
+		if v.broken {
+			return
+		}
 		if v.ok || v.accepted != victim {
-			infra("C02: corrupted trace (kind %d, run %d) was not rejected where expected (ok=%v accepted=%d)", kind, victim+1, v.ok, v.accepted)
+			def.add("C02: corrupted trace (kind %d, run %d) was not rejected where expected (ok=%v accepted=%d)", kind, victim+1, v.ok, v.accepted)
+			continue
 		}
 		corrupt++
 	}
 	if corrupt < 2 {
-		infra("C02: corrupted-trace self-test could not be built")
+		def.add("C02: corrupted-trace self-test could not be built")
 	}
 	c.Set("corrupted_traces_rejected", corrupt)
 }
